@@ -54,6 +54,11 @@ var dictionary = []string{`"`, `""`, `''`, `'`, "@", ">", "+", "#", ":", "::", "
 	// numbers with more digits than a float64 or an int holds exactly
 	// words that a layer may take for a keyword (all of gen.HostileTokens are spliced as well, see exhaustiveC11)
 	"track", "track\t", "browser", "NA", "null", "%09", "%25",
+	// numbers at the limits of the integer and single-precision types, as branch lengths, tag
+	// values and coordinates
+	":9223372036854775807", ":9223372036854775808", ":-9223372036854775808", ":9.223372036854776e18", ":4294967296", ":2147483648", ":16777217", ":1e15", ":1e21", ":1e22",
+	":3.4028234663852886e38", ":0.10000000149011612", "9223372036854775807", "-9223372036854775808", "4294967296", "2147483648", "-2147483649", "XX:i:9223372036854775807", "XX:f:16777217",
+	"XX:f:3.4028235e38", "XX:f:0.10000000149011612",
 	"0.97552492417777546", ":0.97552492417777546", "0.1000000000000000055511151231257827", "9007199254740993", "1.7976931348623157e308", "4.9e-324", "123456789012345678901234567890"}
 
 // ---- own renderers of valid text (independent of the library's writers) -------------------
@@ -655,6 +660,24 @@ func exhaustiveC11(thorough bool, emit func(C11Case) bool) {
 			strings.Repeat("(", d) + "a" + strings.Repeat(",c)", d) + ";\n(x,y)z;",
 		} {
 			if !emit(C11Case{Kind: "total", Format: "newick", Text: gen.B(in)}) {
+				return
+			}
+		}
+	}
+	// a line of 4096 .. 131072 content bytes (whole multiples of 64 KiB and their neighbours) in
+	// every format: what is accepted there is a fixed point too
+	for _, n := range []int{4095, 4096, 65535, 65536, 65537, 131072} {
+		pad := func(base int) string { return strings.Repeat("ACGT", n/4+1)[:n-base] }
+		long := map[string]string{
+			"fasta":  ">a\nAC\n>" + pad(1) + "\n" + pad(0) + "\n>b\nGT\n",
+			"fastq":  "@a\nAC\n+\nII\n@b\n" + pad(0) + "\n+\n" + strings.Repeat("I", n) + "\n@" + pad(1) + "\nG\n+\nJ\n",
+			"sam":    "q1\t0\tr\t+1\t2\tM\t=\t4\t5\tA\tI\n" + "q2\t0\tr\t+7\t2\tM\t=\t4\t5\tA\tI\tXX:Z:" + pad(31) + "\n" + "q2\t0\tr\t+7\t2\tM\t=\t4\t5\tA\tI\tXX:Z:" + pad(30) + "\nq3\t0\tr\t1\t2\tM\t=\t4\t5\tA\tI\n",
+			"samh":   "@CO\t" + pad(4) + "\nq2\t0\tr\t+7\t2\tM\t=\t4\t5\tA\tI\tXX:Z:" + pad(30) + "\n",
+			"bed":    "c\t+1\t2\tn\nc\t+1\t2\t" + pad(7) + "\nc\t+1\t2\t" + pad(6) + "\nd\t3\t4\tm\n",
+			"newick": "(a,b)c;\n(" + pad(6) + ",b)d;\n(" + pad(7) + ":+1,b)d;\n(e)f;\n",
+		}
+		for _, f := range codecNames {
+			if !emit(C11Case{Kind: "total", Format: f, Text: gen.B(long[f])}) {
 				return
 			}
 		}
